@@ -43,6 +43,27 @@ type fakeStore struct {
 	secrets  map[string]string // cleaned absolute path -> PEM
 	requests []string          // method + decoded path, as received
 	srv      *httptest.Server
+	asked    []string // every secret the store was ASKED to keep, whether it then answered ok or not
+	devKind  string   // environment answer: the request kind that deviates (read | write | delete | list), "" = none
+	devMode  string   // 403 | 404 | 500 | malformed | timeout
+}
+
+func (f *fakeStore) deviate(kind, mode string) {
+	f.mu.Lock()
+	f.devKind, f.devMode = kind, mode
+	f.mu.Unlock()
+}
+
+func requestKind(r *nethttp.Request, clean string) string {
+	switch {
+	case r.Method == "GET" && (r.URL.Query().Get("list") == "true" || clean == "/secrets"):
+		return "list"
+	case r.Method == "GET":
+		return "read"
+	case r.Method == "DELETE":
+		return "delete"
+	}
+	return "write"
 }
 
 func newFakeStore() *fakeStore {
@@ -65,6 +86,46 @@ func (f *fakeStore) serve(w nethttp.ResponseWriter, r *nethttp.Request) {
 	p := r.URL.Path // decoded
 	f.requests = append(f.requests, r.Method+" "+p)
 	clean := path.Clean("/" + p)
+	var body []byte
+	if r.Body != nil {
+		body, _ = io.ReadAll(r.Body)
+	}
+	if r.Method == "PUT" || r.Method == "POST" {
+		var m map[string]any
+		if json.Unmarshal(body, &m) == nil {
+			for _, k := range []string{"key", "secret"} {
+				if v, ok := m[k].(string); ok {
+					f.asked = append(f.asked, v)
+				}
+			}
+		}
+	}
+	if clean != "/health" && clean != "/v1/auth/token/lookup-self" && f.devKind != "" && requestKind(r, clean) == f.devKind {
+		switch f.devMode {
+		case "403":
+			w.Header().Set("Content-Type", "application/json")
+			w.WriteHeader(403)
+			_, _ = w.Write([]byte(`{"errors":["permission denied"],"title":"forbidden","status":403,"backend":"fake","detail":"permission denied"}`))
+		case "404":
+			w.Header().Set("Content-Type", "application/json")
+			w.WriteHeader(404)
+			_, _ = w.Write([]byte(`{"errors":[],"title":"not found","status":404,"backend":"fake","detail":"no such secret"}`))
+		case "500":
+			w.Header().Set("Content-Type", "application/json")
+			w.WriteHeader(500)
+			_, _ = w.Write([]byte(`{"errors":["Vault is sealed"],"title":"internal error","status":500,"backend":"fake","detail":"sealed"}`))
+		case "malformed":
+			w.Header().Set("Content-Type", "application/json")
+			w.WriteHeader(200)
+			_, _ = w.Write([]byte(`{"data": {"key": 5, "secret": [`))
+		case "timeout":
+			f.mu.Unlock()
+			time.Sleep(700 * time.Millisecond)
+			f.mu.Lock()
+			w.WriteHeader(504)
+		}
+		return
+	}
 	writeJSON := func(code int, v any) {
 		w.Header().Set("Content-Type", "application/json")
 		w.WriteHeader(code)
@@ -96,10 +157,9 @@ func (f *fakeStore) serve(w nethttp.ResponseWriter, r *nethttp.Request) {
 				writeJSON(404, map[string]any{"errors": []string{}})
 			}
 		case "PUT", "POST":
-			var body map[string]any
-			b, _ := io.ReadAll(r.Body)
-			_ = json.Unmarshal(b, &body)
-			s, _ := body["key"].(string)
+			var bm map[string]any
+			_ = json.Unmarshal(body, &bm)
+			s, _ := bm["key"].(string)
 			f.secrets[clean] = s
 			w.WriteHeader(204)
 		case "DELETE":
@@ -128,14 +188,13 @@ func (f *fakeStore) serve(w nethttp.ResponseWriter, r *nethttp.Request) {
 				writeJSON(404, map[string]any{"title": "not found", "status": 404, "backend": "fake", "detail": "no such secret"})
 			}
 		case "POST":
-			var body map[string]any
-			b, _ := io.ReadAll(r.Body)
-			_ = json.Unmarshal(b, &body)
+			var bm map[string]any
+			_ = json.Unmarshal(body, &bm)
 			if _, ok := f.secrets[clean]; ok {
 				writeJSON(409, map[string]any{"title": "exists", "status": 409, "backend": "fake", "detail": "exists"})
 				return
 			}
-			s, _ := body["secret"].(string)
+			s, _ := bm["secret"].(string)
 			f.secrets[clean] = s
 			writeJSON(200, map[string]any{"secret": s})
 		case "DELETE":
@@ -156,6 +215,8 @@ type backendUnderTest struct {
 	namespace string     // request path prefix of a key entry ("" for fs)
 	victimKey *ecdsa.PrivateKey
 	realName  string
+	realKid   string
+	realPub   any
 	lab       *lab
 }
 
@@ -183,9 +244,11 @@ func pemOf(t *testing.T, k *ecdsa.PrivateKey) string {
 }
 
 func TestVerifC03Backends(t *testing.T) {
-	logrus.SetLevel(logrus.PanicLevel)
 	r := ev.Start(t, "C03")
 	defer r.Finish()
+	installLogCapture(t)
+	logrus.SetLevel(logrus.TraceLevel)
+	t.Setenv("VAULT_MAX_RETRIES", "0") // the Vault client retries 5xx answers with seconds of back-off; one answer per request is what is enumerated
 	if os.Getenv("VERIF_REPLAY") != "" {
 		var rc map[string]any
 		if !r.ReplayCase(&rc) {
@@ -212,7 +275,7 @@ func TestVerifC03Backends(t *testing.T) {
 			b.fake = newFakeStore()
 			t.Cleanup(b.fake.srv.Close)
 			cfg.External.Address = b.fake.srv.URL
-			cfg.External.Timeout = 5 * time.Second
+			cfg.External.Timeout = 400 * time.Millisecond
 			b.namespace = "/secrets/"
 			for _, p := range []string{"/tenant-b/signing-key", "/etc/passwd", "/decoy", "/secrets-of-others/decoy", "/"} {
 				b.fake.secrets[path.Clean(p)] = pemOf(t, b.victimKey)
@@ -222,7 +285,7 @@ func TestVerifC03Backends(t *testing.T) {
 			t.Cleanup(b.fake.srv.Close)
 			cfg.Vault.Address = b.fake.srv.URL
 			cfg.Vault.Token = "verif-token"
-			cfg.Vault.Timeout = 5 * time.Second
+			cfg.Vault.Timeout = 400 * time.Millisecond
 			b.namespace = "/v1/kv/nuts-private-keys/"
 			for _, p := range []string{"/v1/kv/tenant-b/signing-key", "/v1/kv/decoy", "/v1/kv", "/v1/tenant-b/signing-key", "/v1/secret/decoy"} {
 				b.fake.secrets[path.Clean(p)] = pemOf(t, b.victimKey)
@@ -232,11 +295,12 @@ func TestVerifC03Backends(t *testing.T) {
 			t.Fatalf("harness: Configure(%s): %v", storageType, err)
 		}
 		b.c = c
-		ref, _, err := c.New(ctx, nutsCrypto.StringNamingFunc("did:web:example.com:iam:real-"+storageType+"#0"))
+		b.realKid = "did:web:example.com:iam:real-" + storageType + "#0"
+		ref, pub, err := c.New(ctx, nutsCrypto.StringNamingFunc(b.realKid))
 		if err != nil {
 			t.Fatalf("harness: New on %s: %v", storageType, err)
 		}
-		b.realName = ref.KeyName
+		b.realName, b.realPub = ref.KeyName, pub
 		if b.fake != nil {
 			for _, q := range b.fake.take() {
 				if !b.inNamespace(q) {
@@ -345,6 +409,112 @@ func TestVerifC03Backends(t *testing.T) {
 					if !b.inNamespace(q) || !uuidFile.MatchString(filepath.Base(strings.SplitN(q, " ", 2)[1])+"_private.pem") {
 						r.Violation("C03|backends|"+st+"|request-outside-the-key-namespace|New", fmt.Sprintf("New with key id %q made the request %q (error %v)", nameClass(kid), q, err), map[string]any{"backend": st, "kid": kid})
 					}
+				}
+			}
+		}
+		// ---- environment answers: one request kind answered abnormally (deviation bound 1) while the store is otherwise reachable
+		if b.fake != nil {
+			takeLogs()
+			devN := 0
+			for _, kind := range []string{"read", "write", "delete", "list"} {
+				for _, mode := range []string{"403", "404", "500", "malformed", "timeout"} {
+					// a key to delete, created while the store still answers normally
+					devN++
+					delKid := fmt.Sprintf("did:web:example.com:iam:%s-del%d#0", st, devN)
+					if _, _, err := b.c.New(ctx, nutsCrypto.StringNamingFunc(delKid)); err != nil {
+						t.Fatalf("harness: New before the deviation: %v", err)
+					}
+					b.fake.deviate(kind, mode)
+					type opr struct {
+						name string
+						run  func() (string, error)
+					}
+					ops := []opr{
+						{"New", func() (string, error) {
+							_, _, err := b.c.New(ctx, nutsCrypto.StringNamingFunc(fmt.Sprintf("did:web:example.com:iam:%s-new%d#0", st, devN)))
+							return "", err
+						}},
+						{"Resolve", func() (string, error) { p, err := b.c.Resolve(ctx, b.realKid); return fmt.Sprintf("%T", p), err }},
+						{"SignJWT", func() (string, error) { return b.c.SignJWT(ctx, map[string]interface{}{"iss": "x"}, nil, b.realKid) }},
+						{"SignJWS", func() (string, error) {
+							return b.c.SignJWS(ctx, []byte("p"), map[string]interface{}{}, b.realKid, false)
+						}},
+						{"SignDPoP", func() (string, error) {
+							req, _ := nethttp.NewRequest("POST", "https://verif.example/token", nil)
+							return b.c.SignDPoP(ctx, *dpop.New(*req), b.realKid)
+						}},
+						{"DecryptJWE", func() (string, error) {
+							h := jwe.NewHeaders()
+							_ = h.Set("kid", b.realKid)
+							msg, _ := jwe.Encrypt([]byte("secret"), jwe.WithKey(jwa.ECDH_ES_A256KW, b.realPub), jwe.WithProtectedHeaders(h))
+							out, _, err := b.c.DecryptJWE(ctx, string(msg))
+							return string(out), err
+						}},
+						{"Link", func() (string, error) {
+							return "", b.c.Link(ctx, fmt.Sprintf("did:web:example.com:iam:%s-link%d#0", st, devN), b.realName, "1")
+						}},
+						{"Migrate", func() (string, error) { return "", b.c.Migrate() }},
+						{"Delete", func() (string, error) { return "", b.c.Delete(ctx, delKid) }},
+					}
+					for _, o := range ops {
+						var out string
+						var err error
+						func() {
+							defer func() {
+								if p := recover(); p != nil {
+									err = fmt.Errorf("panic: %v", p)
+									r.Observation("panic-under-backend-answer:"+st+"|"+kind+"="+mode, map[string]any{"op": o.name, "panic": fmt.Sprint(p)})
+								}
+							}()
+							out, err = o.run()
+						}()
+						logs := takeLogs()
+						r.Eval(st + "|answer|" + kind + "=" + mode + "|" + o.name)
+						r.Outcome(fmt.Sprintf("%s answer %s=%s ok=%v", st, kind, mode, err == nil))
+						// canaries: every private key the back-end holds or was ASKED to store
+						b.fake.mu.Lock()
+						pems := append([]string{}, b.fake.asked...)
+						for k, v := range b.fake.secrets {
+							if strings.HasPrefix(k, b.namespace) {
+								pems = append(pems, v)
+							}
+						}
+						b.fake.mu.Unlock()
+						var cs []canary
+						seenPem := map[string]bool{}
+						for _, pm := range pems {
+							if seenPem[pm] {
+								continue
+							}
+							seenPem[pm] = true
+							if c, err := canariesOf("stored-key", []byte(pm)); err == nil {
+								cs = append(cs, c...)
+							}
+						}
+						blob := []byte(out)
+						if err != nil {
+							blob = append(blob, []byte(fmt.Sprintf("\n%v\n%+v\n%q", err, err, err.Error()))...)
+						} else if o.name == "SignJWT" || o.name == "SignJWS" || o.name == "SignDPoP" {
+							blob = blobOf(out)
+						}
+						rc := map[string]any{"backend": st, "answer": kind + "=" + mode, "op": o.name}
+						seenForm := map[string]bool{}
+						for _, h := range scan("returned-value-or-error", blob, cs) {
+							if !seenForm[h.Form] {
+								seenForm[h.Form] = true
+								r.Violation("C03|backends|"+st+"|canary|returned-value-or-error|"+o.name+"|"+strings.SplitN(h.Form, "[", 2)[0], fmt.Sprintf("%s while the %s back-end answers %s with %s: private key material (%s) in the returned value / error", o.name, st, kind, mode, h.Form), rc)
+							}
+						}
+						seenForm = map[string]bool{}
+						for _, h := range scan("log", logs, cs) {
+							if !seenForm[h.Form] {
+								seenForm[h.Form] = true
+								r.Violation("C03|backends|"+st+"|canary|log|"+o.name+"|"+strings.SplitN(h.Form, "[", 2)[0], fmt.Sprintf("%s while the %s back-end answers %s with %s: private key material (%s) in the log", o.name, st, kind, mode, h.Form), rc)
+							}
+						}
+					}
+					b.fake.deviate("", "")
+					b.fake.take()
 				}
 			}
 		}
